@@ -70,6 +70,7 @@ impl StackS {
     { unimplemented!() }
 }
 
+pub uninterp spec fn u16_of(b0: u8, b1: u8) -> int;
 // code addresses are modelled by offsets (`*const u8` -> usize); `ip.offset(n)` is ip + n
 #[verifier::external_body]
 fn ip_offset(ip: usize, n: usize) -> (r: usize)
@@ -159,13 +160,14 @@ impl Vm {
         ensures *r == old(self).fib, final(self).fib == *final(r), final(self).ip == old(self).ip,
             final(self).handling_exception == old(self).handling_exception, final(self).code == old(self).code,
     { unimplemented!() }
-    // vm.rs read_short: the big-endian operand at ip, ip advances by 2 (its decoding is checked against the compiler's
-    // encoding under C04)
+    // vm.rs read_short: u16::from_ne_bytes of the two bytes at ip, ip advances by 2. `u16_of` is the same
+    // uninterpreted decoding the compiler's encoders are proved against (unit compiler, C04) and the jump handlers are
+    // proved with (unit flowvm)
     #[verifier::external_body]
     fn read_short(&mut self) -> (r: u16)
         ensures final(self).ip == old(self).ip + 2, final(self).fib == old(self).fib, final(self).handling_exception == old(self).handling_exception,
             final(self).code == old(self).code,
-            r == (old(self).code[old(self).ip as int] as int) * 256 + old(self).code[old(self).ip as int + 1] as int,
+            r as int == u16_of(old(self).code[old(self).ip as int], old(self).code[old(self).ip as int + 1]),
     { unimplemented!() }
     // vm.rs load_frame: ip / active chunk / active module := those of the current frame
     #[verifier::external_body]
@@ -204,8 +206,8 @@ impl Vm {
     //@  ensures final(self).fib.handlers_ok(), final(self).fib.exc_handlers@.len() == old(self).fib.exc_handlers@.len() + 1
     //@  ensures final(self).fib.exc_handlers@.drop_last() == old(self).fib.exc_handlers@
     //@  ensures final(self).fib.exc_handlers@.last().init_stack_size == old(self).fib.stack.view.len() && final(self).fib.exc_handlers@.last().frame_count == old(self).fib.frames@.len()
-    //@  ensures final(self).fib.exc_handlers@.last().catch_ip == old(self).ip + 4 + (old(self).code[old(self).ip as int] as int) * 256 + old(self).code[old(self).ip as int + 1] as int
-    //@  ensures final(self).fib.exc_handlers@.last().finally_ip == final(self).fib.exc_handlers@.last().catch_ip + (old(self).code[old(self).ip as int + 2] as int) * 256 + old(self).code[old(self).ip as int + 3] as int
+    //@  ensures final(self).fib.exc_handlers@.last().catch_ip == old(self).ip + 4 + u16_of(old(self).code[old(self).ip as int], old(self).code[old(self).ip as int + 1])
+    //@  ensures final(self).fib.exc_handlers@.last().finally_ip == final(self).fib.exc_handlers@.last().catch_ip + u16_of(old(self).code[old(self).ip as int + 2], old(self).code[old(self).ip as int + 3])
     //@  ensures final(self).ip == old(self).ip + 4, final(self).fib.stack == old(self).fib.stack, final(self).fib.frames == old(self).fib.frames
     //@end
 
